@@ -224,8 +224,6 @@ class Funcs:
                 r = P.rel
                 n = len(m.rels[r])
                 olds = [c for c in m.copies if c.rel == r and c.age == 'old']
-                if any(c.eqs is not None for c in olds):
-                    raise G.Unsupported('move_new_to_old: diagonal old copies are not supported by the contract generator')
                 mP, aP = G.copy_index_map(m, P)
                 xs = ['x[%d]' % a for a in aP]          # canonical components from a stored tuple x of P
                 mods = [c.field for c in olds]
@@ -237,15 +235,19 @@ class Funcs:
                 for c in olds:
                     st = G.stored_of_canonical(m, c, xs)
                     mv = G.seq_lit(st)
+                    ok = G.diag_condition(m, c, xs) if c.eqs is not None else 'true'
+                    D = {'f': c.field, 'k': k}
                     inv.append('self.%s.wf()' % c.field)
-                    inv.append('forall|s: Seq<u32>| #[trigger] self.%s@.contains(s) <==> (pre%d.%s@.contains(s) || exists|i: int| 0 <= i < gi.index@ && #[trigger] Self::mv%d_%s(gi.seq()[i]@) == s)' % (c.field, k, c.field, k, c.field))
-                    self.decls.append('    pub open spec fn mv%d_%s(x: Seq<u32>) -> Seq<u32> { %s }\n' % (k, c.field, mv))
+                    inv.append('forall|s: Seq<u32>| #[trigger] self.%(f)s@.contains(s) <==> (pre%(k)d.%(f)s@.contains(s) || exists|i: int| 0 <= i < gi.index@ && Self::ok%(k)d_%(f)s(gi.seq()[i]@) && #[trigger] Self::mv%(k)d_%(f)s(gi.seq()[i]@) == s)' % D)
+                    self.decls.append('    pub open spec fn mv%d_%s(x: Seq<u32>) -> Seq<u32> { %s }\n    /// the row belongs into this (diagonal) copy\n    pub open spec fn ok%d_%s(x: Seq<u32>) -> bool { %s }\n' % (k, c.field, mv, k, c.field, ok))
                     els = G.stored_of_canonical(m, c, ['el%d' % i for i in range(n)])
+                    okel = G.diag_condition(m, c, ['el%d' % i for i in range(n)]) if c.eqs is not None else 'true'
                     body_hint.append('    assert([%s]@ =~= Self::mv%d_%s(p__@));' % (', '.join(els), k, c.field))
-                    body_hint.append('    assert forall|s: Seq<u32>| #[trigger] self.%(f)s@.contains(s) <==> (pre%(k)d.%(f)s@.contains(s) || exists|i: int| 0 <= i < gi.index@ + 1 && #[trigger] Self::mv%(k)d_%(f)s(gi.seq()[i]@) == s) by {' % {'f': c.field, 'k': k})
-                    body_hint.append('        if b__.%(f)s@.contains(s) && !pre%(k)d.%(f)s@.contains(s) { let i = choose|i: int| 0 <= i < gi.index@ && #[trigger] Self::mv%(k)d_%(f)s(gi.seq()[i]@) == s; assert(0 <= i < gi.index@ + 1); }' % {'f': c.field, 'k': k})
-                    body_hint.append('        if s == Self::mv%(k)d_%(f)s(p__@) { assert(Self::mv%(k)d_%(f)s(gi.seq()[gi.index@]@) == s); }' % {'f': c.field, 'k': k})
-                    body_hint.append('        if exists|i: int| 0 <= i < gi.index@ + 1 && #[trigger] Self::mv%(k)d_%(f)s(gi.seq()[i]@) == s { let i = choose|i: int| 0 <= i < gi.index@ + 1 && #[trigger] Self::mv%(k)d_%(f)s(gi.seq()[i]@) == s; if i < gi.index@ { assert(b__.%(f)s@.contains(s)); } }' % {'f': c.field, 'k': k})
+                    body_hint.append('    assert(Self::ok%d_%s(p__@) == (%s));' % (k, c.field, okel))
+                    body_hint.append('    assert forall|s: Seq<u32>| #[trigger] self.%(f)s@.contains(s) <==> (pre%(k)d.%(f)s@.contains(s) || exists|i: int| 0 <= i < gi.index@ + 1 && Self::ok%(k)d_%(f)s(gi.seq()[i]@) && #[trigger] Self::mv%(k)d_%(f)s(gi.seq()[i]@) == s) by {' % D)
+                    body_hint.append('        if b__.%(f)s@.contains(s) && !pre%(k)d.%(f)s@.contains(s) { let i = choose|i: int| 0 <= i < gi.index@ && Self::ok%(k)d_%(f)s(gi.seq()[i]@) && #[trigger] Self::mv%(k)d_%(f)s(gi.seq()[i]@) == s; assert(0 <= i < gi.index@ + 1); }' % D)
+                    body_hint.append('        if s == Self::mv%(k)d_%(f)s(p__@) && Self::ok%(k)d_%(f)s(p__@) { assert(Self::mv%(k)d_%(f)s(gi.seq()[gi.index@]@) == s); }' % D)
+                    body_hint.append('        if exists|i: int| 0 <= i < gi.index@ + 1 && Self::ok%(k)d_%(f)s(gi.seq()[i]@) && #[trigger] Self::mv%(k)d_%(f)s(gi.seq()[i]@) == s { let i = choose|i: int| 0 <= i < gi.index@ + 1 && Self::ok%(k)d_%(f)s(gi.seq()[i]@) && #[trigger] Self::mv%(k)d_%(f)s(gi.seq()[i]@) == s; if i < gi.index@ { assert(b__.%(f)s@.contains(s)); } }' % D)
                     body_hint.append('    }')
                 body_hint.append('}')
                 forline = 'for %s in self.%s.iter() {' % (pat, field)
@@ -257,36 +259,67 @@ class Funcs:
                 # summary after the loop
                 summ = ['proof {']
                 for c in olds:
-                    summ.append('    assert forall|s: Seq<u32>| #[trigger] self.%(f)s@.contains(s) <==> (pre%(k)d.%(f)s@.contains(s) || exists|x: Seq<u32>| #[trigger] pre%(k)d.%(P)s@.contains(x) && Self::mv%(k)d_%(f)s(x) == s) by {' % {'f': c.field, 'k': k, 'P': field})
-                    summ.append('        if exists|x: Seq<u32>| #[trigger] pre%(k)d.%(P)s@.contains(x) && Self::mv%(k)d_%(f)s(x) == s { let x = choose|x: Seq<u32>| #[trigger] pre%(k)d.%(P)s@.contains(x) && Self::mv%(k)d_%(f)s(x) == s; }' % {'f': c.field, 'k': k, 'P': field})
+                    summ.append('    assert forall|s: Seq<u32>| #[trigger] self.%(f)s@.contains(s) <==> (pre%(k)d.%(f)s@.contains(s) || exists|x: Seq<u32>| #[trigger] pre%(k)d.%(P)s@.contains(x) && Self::ok%(k)d_%(f)s(x) && Self::mv%(k)d_%(f)s(x) == s) by {' % {'f': c.field, 'k': k, 'P': field})
+                    summ.append('        if exists|x: Seq<u32>| #[trigger] pre%(k)d.%(P)s@.contains(x) && Self::ok%(k)d_%(f)s(x) && Self::mv%(k)d_%(f)s(x) == s { let x = choose|x: Seq<u32>| #[trigger] pre%(k)d.%(P)s@.contains(x) && Self::ok%(k)d_%(f)s(x) && Self::mv%(k)d_%(f)s(x) == s; }' % {'f': c.field, 'k': k, 'P': field})
                     summ.append('    }')
                 summ.append('}')
                 it.before('self.%s.clear();' % field, 'let ghost sm%d = *self;\n' % k + '\n'.join(summ).replace('self.', 'sm%d.' % k))
                 # ---- final reasoning for this relation (identity-ordered primaries only)
                 PO = m.primary(r, 'old')
-                if P is not m.primary(r, 'new') or P.order != list(range(n)) or PO.order != list(range(n)):
-                    raise G.Unsupported('move_new_to_old: the iterated copy / the primary copies of %s are not identity-ordered' % r)
+                if P is not m.primary(r, 'new') or P.order != PO.order:
+                    raise G.Unsupported('move_new_to_old: the iterated copy of %s is not its primary copy, or the new and old primary copies have different column orders' % r)
                 fh = final_hints
                 fh.append('    // ---- %s' % r)
-                fh.append('    assert forall|t: Seq<u32>| #[trigger] self.t_%(r)s_old().contains(t) <==> (old(self).t_%(r)s_old().contains(t) || old(self).t_%(r)s_new().contains(t)) by {' % {'r': r})
-                fh.append('        if old(self).t_%(r)s_new().contains(t) { pre%(k)d.%(P)s.lemma_len(t); assert(pre%(k)d.%(P)s@.contains(t)); assert(Self::mv%(k)d_%(PO)s(t) =~= t); }' % {'r': r, 'k': k, 'P': field, 'PO': PO.field})
-                fh.append('        if exists|x: Seq<u32>| #[trigger] pre%(k)d.%(P)s@.contains(x) && Self::mv%(k)d_%(PO)s(x) == t { let x = choose|x: Seq<u32>| #[trigger] pre%(k)d.%(P)s@.contains(x) && Self::mv%(k)d_%(PO)s(x) == t; pre%(k)d.%(P)s.lemma_len(x); assert(Self::mv%(k)d_%(PO)s(x) =~= x); }' % {'k': k, 'P': field, 'PO': PO.field})
-                fh.append('    }')
-                fh.append('    assert(self.t_%(r)s_old() =~= old(self).t_%(r)s_old().union(old(self).t_%(r)s_new()));' % {'r': r})
-                fh.append('    assert forall|t: Seq<u32>| !self.t_%(r)s_new().contains(t) by {}' % {'r': r})
-                for c in olds:
-                    if c is PO:
-                        continue
-                    mO, aO = G.copy_index_map(m, c)
-                    cO = G.seq_lit(['s[%d]' % a for a in aO])
-                    fh.append('    assert forall|s: Seq<u32>| #[trigger] self.%(f)s@.contains(s) <==> (s.len() == %(m)d && self.t_%(r)s_old().contains(%(cO)s)) by {' % {'f': c.field, 'm': mO, 'r': r, 'cO': cO})
-                    fh.append('        let t = %s;' % cO)
-                    fh.append('        if s.len() == %(m)d && old(self).t_%(r)s_new().contains(t) { assert(pre%(k)d.%(P)s@.contains(t)); assert(Self::mv%(k)d_%(f)s(t) =~= s); }' % {'m': mO, 'r': r, 'k': k, 'P': field, 'f': c.field})
-                    fh.append('        if exists|x: Seq<u32>| #[trigger] pre%(k)d.%(P)s@.contains(x) && Self::mv%(k)d_%(f)s(x) == s { let x = choose|x: Seq<u32>| #[trigger] pre%(k)d.%(P)s@.contains(x) && Self::mv%(k)d_%(f)s(x) == s; pre%(k)d.%(P)s.lemma_len(x); assert(%(cOmv)s =~= x); }'
-                              % {'k': k, 'P': field, 'f': c.field, 'cOmv': G.seq_lit(['Self::mv%d_%s(x)[%d]' % (k, c.field, a) for a in aO])})
-                    fh.append('        assert(old(self).%(f)s@.contains(s) <==> (s.len() == %(m)d && old(self).t_%(r)s_old().contains(t)));' % {'f': c.field, 'm': mO, 'r': r})
+                identity = P.order == list(range(n))
+                if identity:
+                    fh.append('    assert forall|t: Seq<u32>| #[trigger] self.t_%(r)s_old().contains(t) <==> (old(self).t_%(r)s_old().contains(t) || old(self).t_%(r)s_new().contains(t)) by {' % {'r': r})
+                    fh.append('        if old(self).t_%(r)s_new().contains(t) { pre%(k)d.%(P)s.lemma_len(t); assert(pre%(k)d.%(P)s@.contains(t)); assert(Self::mv%(k)d_%(PO)s(t) =~= t); }' % {'r': r, 'k': k, 'P': field, 'PO': PO.field})
+                    fh.append('        if exists|x: Seq<u32>| #[trigger] pre%(k)d.%(P)s@.contains(x) && Self::ok%(k)d_%(PO)s(x) && Self::mv%(k)d_%(PO)s(x) == t { let x = choose|x: Seq<u32>| #[trigger] pre%(k)d.%(P)s@.contains(x) && Self::ok%(k)d_%(PO)s(x) && Self::mv%(k)d_%(PO)s(x) == t; pre%(k)d.%(P)s.lemma_len(x); assert(Self::mv%(k)d_%(PO)s(x) =~= x); }' % {'k': k, 'P': field, 'PO': PO.field})
                     fh.append('    }')
-                    fh.append('    assert(self.%(f)s@ =~= ISet::new(|s: Seq<u32>| s.len() == %(m)d && self.t_%(r)s_old().contains(%(cO)s)));' % {'f': c.field, 'm': mO, 'r': r, 'cO': cO})
+                    fh.append('    assert(self.t_%(r)s_old() =~= old(self).t_%(r)s_old().union(old(self).t_%(r)s_new()));' % {'r': r})
+                    fh.append('    assert forall|t: Seq<u32>| !self.t_%(r)s_new().contains(t) by {}' % {'r': r})
+                    for c in olds:
+                        if c is PO:
+                            continue
+                        mO, aO = G.copy_index_map(m, c)
+                        cO = G.seq_lit(['s[%d]' % a for a in aO])
+                        fh.append('    assert forall|s: Seq<u32>| #[trigger] self.%(f)s@.contains(s) <==> (s.len() == %(m)d && self.t_%(r)s_old().contains(%(cO)s)) by {' % {'f': c.field, 'm': mO, 'r': r, 'cO': cO})
+                        fh.append('        let t = %s;' % cO)
+                        fh.append('        if s.len() == %(m)d && old(self).t_%(r)s_new().contains(t) { assert(pre%(k)d.%(P)s@.contains(t)); assert(Self::ok%(k)d_%(f)s(t)); assert(Self::mv%(k)d_%(f)s(t) =~= s); }' % {'m': mO, 'r': r, 'k': k, 'P': field, 'f': c.field})
+                        fh.append('        if exists|x: Seq<u32>| #[trigger] pre%(k)d.%(P)s@.contains(x) && Self::ok%(k)d_%(f)s(x) && Self::mv%(k)d_%(f)s(x) == s { let x = choose|x: Seq<u32>| #[trigger] pre%(k)d.%(P)s@.contains(x) && Self::ok%(k)d_%(f)s(x) && Self::mv%(k)d_%(f)s(x) == s; pre%(k)d.%(P)s.lemma_len(x); assert(%(cOmv)s =~= x); }'
+                                  % {'k': k, 'P': field, 'f': c.field, 'cOmv': G.seq_lit(['Self::mv%d_%s(x)[%d]' % (k, c.field, a) for a in aO])})
+                        fh.append('        assert(old(self).%(f)s@.contains(s) <==> (s.len() == %(m)d && old(self).t_%(r)s_old().contains(t)));' % {'f': c.field, 'm': mO, 'r': r})
+                        fh.append('    }')
+                        fh.append('    assert(self.%(f)s@ =~= ISet::new(|s: Seq<u32>| s.len() == %(m)d && self.t_%(r)s_old().contains(%(cO)s)));' % {'f': c.field, 'm': mO, 'r': r, 'cO': cO})
+                else:
+                    # general column order (the same for the new and the old primary copy): stP(t) = the stored tuple of canonical t
+                    def stP(comps):
+                        return G.seq_lit(G.stored_of_canonical(m, P, comps))
+                    tcomps = ['t[%d]' % i for i in range(n)]
+                    D0 = {'r': r, 'k': k, 'P': field, 'PO': PO.field, 'n': n, 'st': stP(tcomps)}
+                    fh.append('    assert forall|t: Seq<u32>| #[trigger] self.t_%(r)s_old().contains(t) <==> (old(self).t_%(r)s_old().contains(t) || old(self).t_%(r)s_new().contains(t)) by {' % D0)
+                    fh.append('        if t.len() == %(n)d {' % D0)
+                    fh.append('            let s = %(st)s;' % D0)
+                    fh.append('            if pre%(k)d.%(P)s@.contains(s) { assert(Self::ok%(k)d_%(PO)s(s)); assert(Self::mv%(k)d_%(PO)s(s) =~= s); }' % D0)
+                    fh.append('            if exists|x: Seq<u32>| #[trigger] pre%(k)d.%(P)s@.contains(x) && Self::ok%(k)d_%(PO)s(x) && Self::mv%(k)d_%(PO)s(x) == s { let x = choose|x: Seq<u32>| #[trigger] pre%(k)d.%(P)s@.contains(x) && Self::ok%(k)d_%(PO)s(x) && Self::mv%(k)d_%(PO)s(x) == s; pre%(k)d.%(P)s.lemma_len(x); assert(Self::mv%(k)d_%(PO)s(x) =~= x); }' % D0)
+                    fh.append('        }')
+                    fh.append('    }')
+                    fh.append('    assert(self.t_%(r)s_old() =~= old(self).t_%(r)s_old().union(old(self).t_%(r)s_new()));' % D0)
+                    fh.append('    assert forall|t: Seq<u32>| !self.t_%(r)s_new().contains(t) by {}' % D0)
+                    for c in olds:
+                        if c is PO:
+                            continue
+                        mO, aO = G.copy_index_map(m, c)
+                        cO = G.seq_lit(['s[%d]' % a for a in aO])
+                        D1 = dict(D0, f=c.field, m=mO, cO=cO, stcO=stP(['s[%d]' % a for a in aO]),
+                                  back=stP(['Self::mv%d_%s(x)[%d]' % (k, c.field, a) for a in aO]))
+                        fh.append('    assert forall|s: Seq<u32>| #[trigger] self.%(f)s@.contains(s) <==> (s.len() == %(m)d && self.t_%(r)s_old().contains(%(cO)s)) by {' % D1)
+                        fh.append('        let t = %(cO)s;' % D1)
+                        fh.append('        if s.len() == %(m)d && old(self).t_%(r)s_new().contains(t) { let x0 = %(stcO)s; assert(pre%(k)d.%(P)s@.contains(x0)); assert(Self::ok%(k)d_%(f)s(x0)); assert(Self::mv%(k)d_%(f)s(x0) =~= s); }' % D1)
+                        fh.append('        if exists|x: Seq<u32>| #[trigger] pre%(k)d.%(P)s@.contains(x) && Self::ok%(k)d_%(f)s(x) && Self::mv%(k)d_%(f)s(x) == s { let x = choose|x: Seq<u32>| #[trigger] pre%(k)d.%(P)s@.contains(x) && Self::ok%(k)d_%(f)s(x) && Self::mv%(k)d_%(f)s(x) == s; pre%(k)d.%(P)s.lemma_len(x); assert(%(back)s =~= x); }' % D1)
+                        fh.append('        assert(old(self).%(f)s@.contains(s) <==> (s.len() == %(m)d && old(self).t_%(r)s_old().contains(t)));' % D1)
+                        fh.append('    }')
+                        fh.append('    assert(self.%(f)s@ =~= ISet::new(|s: Seq<u32>| s.len() == %(m)d && self.t_%(r)s_old().contains(%(cO)s)));' % D1)
                 for c in m.copies:
                     if c.rel == r and c.age == 'new' and c is not P:
                         mN, aN = G.copy_index_map(m, c)
@@ -340,8 +373,8 @@ class Funcs:
                         continue
                     # nonempty(T) <==> nonempty(copy)
                     st = G.stored_of_canonical(m, c, ['t[%d]' % i for i in range(n)])
-                    h.append('    if nonempty(self.t_%s_new()) { let t = choose|t: Seq<u32>| self.t_%s_new().contains(t); assert(%s =~= t); assert(self.%s@.contains(%s)); }'
-                             % (r, r, G.seq_lit(['%s[%d]' % (G.seq_lit(st), x) for x in a]), c.field, G.seq_lit(st)))
+                    h.append('    if nonempty(self.t_%s_new()) { let t = choose|t: Seq<u32>| self.t_%s_new().contains(t); assert(self.t_%s().contains(t)); assert(%s =~= t); assert(self.%s@.contains(%s)); }'
+                             % (r, r, r, G.seq_lit(['%s[%d]' % (G.seq_lit(st), x) for x in a]), c.field, G.seq_lit(st)))
                     canon_s = G.seq_lit(['s[%d]' % x for x in a])
                     st_of_canon = G.seq_lit(G.stored_of_canonical(m, c, ['%s[%d]' % (canon_s, i) for i in range(n)]))
                     h.append('    if exists|s: Seq<u32>| self.%(f)s@.contains(s) { let s = choose|s: Seq<u32>| self.%(f)s@.contains(s); self.%(f)s.lemma_len(s); assert(%(sc)s =~= s); assert(self.t_%(r)s_new().contains(%(cs)s)); }'
